@@ -117,3 +117,198 @@ pub fn padding(value: usize, align: usize) -> usize {
         align - r
     }
 }
+
+// ===================================================================== decoding side
+
+/// Reference D-Bus *validating reader*, from the spec's "Valid ..." rules:
+/// padding must be zero, values must lie inside the buffer, BOOLEAN is 0/1,
+/// strings carry a u32 length, are NUL-terminated, contain no NUL and are UTF-8.
+pub struct In<'a> {
+    pub buf: &'a [u8],
+    pub pos: usize,
+    pub base: usize,
+    pub big_endian: bool,
+}
+
+impl<'a> In<'a> {
+    pub fn new(buf: &'a [u8], base: usize, big_endian: bool) -> Self {
+        In {
+            buf,
+            pos: 0,
+            base,
+            big_endian,
+        }
+    }
+    pub fn align(&mut self, align: usize) -> Option<()> {
+        while (self.base + self.pos) % align != 0 {
+            if self.pos >= self.buf.len() || self.buf[self.pos] != 0 {
+                return None;
+            }
+            self.pos += 1;
+        }
+        Some(())
+    }
+    pub fn byte(&mut self) -> Option<u8> {
+        if self.pos >= self.buf.len() {
+            return None;
+        }
+        let b = self.buf[self.pos];
+        self.pos += 1;
+        Some(b)
+    }
+    pub fn fixed(&mut self, n: usize) -> Option<u64> {
+        self.align(n)?;
+        if self.buf.len() - self.pos < n {
+            return None;
+        }
+        let mut v: u64 = 0;
+        let mut i = 0;
+        while i < n {
+            let b = self.buf[self.pos + i] as u64;
+            let shift = if self.big_endian { 8 * (n - 1 - i) } else { 8 * i };
+            v |= b << shift;
+            i += 1;
+        }
+        self.pos += n;
+        Some(v)
+    }
+    pub fn boolean(&mut self) -> Option<bool> {
+        match self.fixed(4)? {
+            0 => Some(false),
+            1 => Some(true),
+            _ => None,
+        }
+    }
+    /// STRING / OBJECT_PATH body; returns (start, len) of the text inside `buf`.
+    pub fn string(&mut self) -> Option<(usize, usize)> {
+        let len = self.fixed(4)? as usize;
+        self.text(len)
+    }
+    /// SIGNATURE body: u8 length
+    pub fn signature(&mut self) -> Option<(usize, usize)> {
+        let len = self.byte()? as usize;
+        self.text(len)
+    }
+    fn text(&mut self, len: usize) -> Option<(usize, usize)> {
+        let avail = self.buf.len() - self.pos;
+        // text + terminating NUL must be inside the buffer
+        if len >= avail {
+            return None;
+        }
+        let start = self.pos;
+        let mut i = 0;
+        while i < len {
+            if self.buf[start + i] == 0 {
+                return None;
+            }
+            i += 1;
+        }
+        if self.buf[start + len] != 0 {
+            return None;
+        }
+        if !utf8_valid(&self.buf[start..start + len]) {
+            return None;
+        }
+        self.pos = start + len + 1;
+        Some((start, len))
+    }
+}
+
+/// UTF-8 well-formedness (Unicode Table 3-7), byte loop.
+pub fn utf8_valid(s: &[u8]) -> bool {
+    let mut i = 0;
+    while i < s.len() {
+        let b0 = s[i];
+        if b0 < 0x80 {
+            i += 1;
+            continue;
+        }
+        let (need, lo, hi) = if b0 >= 0xC2 && b0 <= 0xDF {
+            (1usize, 0x80u8, 0xBFu8)
+        } else if b0 == 0xE0 {
+            (2, 0xA0, 0xBF)
+        } else if (b0 >= 0xE1 && b0 <= 0xEC) || b0 == 0xEE || b0 == 0xEF {
+            (2, 0x80, 0xBF)
+        } else if b0 == 0xED {
+            (2, 0x80, 0x9F)
+        } else if b0 == 0xF0 {
+            (3, 0x90, 0xBF)
+        } else if b0 >= 0xF1 && b0 <= 0xF3 {
+            (3, 0x80, 0xBF)
+        } else if b0 == 0xF4 {
+            (3, 0x80, 0x8F)
+        } else {
+            return false;
+        };
+        if s.len() - i <= need {
+            return false;
+        }
+        let b1 = s[i + 1];
+        if b1 < lo || b1 > hi {
+            return false;
+        }
+        let mut k = 2;
+        while k <= need {
+            let b = s[i + k];
+            if b < 0x80 || b > 0xBF {
+                return false;
+            }
+            k += 1;
+        }
+        i += need + 1;
+    }
+    true
+}
+
+#[cfg(test)]
+mod tests {
+    use super::*;
+    #[test]
+    fn utf8_model_matches_std() {
+        // exhaustive over all 1- and 2-byte strings, sampled 3/4-byte
+        for a in 0..=255u8 {
+            assert_eq!(utf8_valid(&[a]), core::str::from_utf8(&[a]).is_ok());
+            for b in 0..=255u8 {
+                assert_eq!(utf8_valid(&[a, b]), core::str::from_utf8(&[a, b]).is_ok());
+            }
+        }
+        for a in [0xE0u8, 0xE1, 0xEC, 0xED, 0xEE, 0xEF, 0xF0, 0xF1, 0xF4, 0xF5, 0x7f, 0xC2] {
+            for b in 0..=255u8 {
+                for c in [0x00u8, 0x7f, 0x80, 0xBF, 0xC0] {
+                    assert_eq!(utf8_valid(&[a, b, c]), core::str::from_utf8(&[a, b, c]).is_ok());
+                    assert_eq!(utf8_valid(&[a, b, c, 0x80]), core::str::from_utf8(&[a, b, c, 0x80]).is_ok());
+                }
+            }
+        }
+    }
+    #[test]
+    fn marshal_spec_examples() {
+        // from the D-Bus spec text: a STRING "foo" is 03 00 00 00 66 6f 6f 00 (LE)
+        let mut o = Out::new(0, false);
+        o.string(b"foo");
+        assert_eq!(o.bytes(), &[3, 0, 0, 0, b'f', b'o', b'o', 0]);
+        // array of int64 with one element at offset 0: len=8, 4 bytes padding, element
+        let mut o = Out::new(0, false);
+        let m = o.array_begin(8);
+        o.u64(5);
+        o.array_end(m);
+        assert_eq!(o.bytes(), &[8, 0, 0, 0, 0, 0, 0, 0, 5, 0, 0, 0, 0, 0, 0, 0]);
+        // same bytes must be produced by zvariant for these (model validation against the real encoder)
+        let ctxt = zvariant::serialized::Context::new_dbus(zvariant::LE, 0);
+        assert_eq!(zvariant::to_bytes(ctxt, "foo").unwrap().bytes(), &[3, 0, 0, 0, b'f', b'o', b'o', 0]);
+        assert_eq!(zvariant::to_bytes(ctxt, &vec![5u64]).unwrap().bytes(), o.bytes());
+        let ctxt = zvariant::serialized::Context::new_dbus(zvariant::BE, 3);
+        let mut o = Out::new(3, true);
+        o.struct_begin();
+        o.u8(7);
+        o.u32(0x01020304);
+        o.string(b"x");
+        assert_eq!(zvariant::to_bytes(ctxt, &(7u8, 0x01020304u32, "x")).unwrap().bytes(), o.bytes());
+        // reader accepts what the writer wrote
+        let mut i = In::new(o.bytes(), 3, true);
+        i.align(8).unwrap();
+        assert_eq!(i.byte(), Some(7));
+        assert_eq!(i.fixed(4), Some(0x01020304));
+        assert_eq!(i.string(), Some((o.len - 2, 1)));
+    }
+}
